@@ -25,7 +25,7 @@ func (c *fctx) lvalSet(e ast.Expr, val string) {
 		if v == nil {
 			c.fail(e, "assignment to %s", x.Name)
 		}
-		c.letPure(c.name(v), c.ltype(e, v.Type()), val)
+		c.letPure(c.name(v), c.vtype(e, v), val)
 	case *ast.StarExpr:
 		c.lvalSet(x.X, val)
 	case *ast.SelectorExpr:
@@ -60,8 +60,13 @@ func (c *fctx) lvalSet(e ast.Expr, val string) {
 	case *ast.IndexExpr:
 		c.requireOwned(x.X)
 		base := c.expr(x.X)
-		idx := c.toInt(x.Index)
-		t := c.bindM("", fmt.Sprintf("Go.set %s %s %s", base, idx, val))
+		var t string
+		if nt, ok := c.natTerm(x.Index); ok {
+			t = c.bindM("", fmt.Sprintf("Go.setN %s %s %s", base, nt, val))
+		} else {
+			idx := c.toInt(x.Index)
+			t = c.bindM("", fmt.Sprintf("Go.set %s %s %s", base, idx, val))
+		}
 		c.lvalSet(x.X, t)
 	default:
 		c.fail(e, "assignment to %T", e)
@@ -213,6 +218,10 @@ func (c *fctx) simple(s ast.Stmt) {
 		c.callStmt(call)
 	case *ast.IncDecStmt:
 		ty := c.info.Types[s.X].Type
+		if v := c.natVarOf(s.X); v != nil {
+			c.lvalSet(s.X, "("+c.name(v)+" + 1)")
+			return
+		}
 		one := "(1 : " + c.ltype(s, ty) + ")"
 		op := token.ADD
 		if s.Tok == token.DEC {
@@ -235,9 +244,18 @@ func (c *fctx) simple(s ast.Stmt) {
 					continue
 				}
 				if i < len(vs.Values) {
-					c.letPure(c.name(v), c.ltype(s, v.Type()), c.rhs(vs.Values[i], v.Type()))
+					if c.natVars[v] {
+						nt, _ := c.natTerm(vs.Values[i])
+						c.letPure(c.name(v), "Nat", nt)
+					} else {
+						c.letPure(c.name(v), c.ltype(s, v.Type()), c.rhs(vs.Values[i], v.Type()))
+					}
 				} else if len(vs.Values) == 0 {
-					c.letPure(c.name(v), c.ltype(s, v.Type()), c.zero(s, v.Type()))
+					if c.natVars[v] {
+						c.letPure(c.name(v), "Nat", "0")
+					} else {
+						c.letPure(c.name(v), c.ltype(s, v.Type()), c.zero(s, v.Type()))
+					}
 				} else {
 					c.fail(s, "var with a multi-valued initialiser")
 				}
@@ -281,13 +299,13 @@ func (c *fctx) assign(s *ast.AssignStmt) {
 			c.fail(s, "multi-value assignment")
 		}
 		if len(s.Lhs) == 1 {
-			c.lvalSet(s.Lhs[0], c.rhs(s.Rhs[0], c.lhsType(s.Lhs[0])))
+			c.lvalSet(s.Lhs[0], c.rhsFor(s.Lhs[0], s.Rhs[0]))
 			return
 		}
 		var vals []string
 		for i := range s.Rhs {
 			t := c.fresh("a")
-			c.letPure(t, "", c.rhs(s.Rhs[i], c.lhsType(s.Lhs[i])))
+			c.letPure(t, "", c.rhsFor(s.Lhs[i], s.Rhs[i]))
 			vals = append(vals, t)
 		}
 		for i := range s.Lhs {
@@ -300,8 +318,37 @@ func (c *fctx) assign(s *ast.AssignStmt) {
 			c.fail(s, "assignment operator %s", s.Tok)
 		}
 		ty := c.info.Types[s.Lhs[0]].Type
+		if v := c.natVarOf(s.Lhs[0]); v != nil {
+			nt, _ := c.natTerm(s.Rhs[0])
+			o := "+"
+			if op == token.MUL {
+				o = "*"
+			}
+			c.lvalSet(s.Lhs[0], "("+c.name(v)+" "+o+" "+nt+")")
+			return
+		}
 		c.lvalSet(s.Lhs[0], c.arith(s, op, c.expr(s.Lhs[0]), c.expr(s.Rhs[0]), ty))
 	}
+}
+
+func (c *fctx) natVarOf(e ast.Expr) *types.Var {
+	if id, ok := e.(*ast.Ident); ok {
+		if v := c.localVar(id); v != nil && c.natVars[v] {
+			return v
+		}
+	}
+	return nil
+}
+
+func (c *fctx) rhsFor(lhs, e ast.Expr) string {
+	if v := c.natVarOf(lhs); v != nil {
+		nt, ok := c.natTerm(e)
+		if !ok {
+			c.fail(e, "non-negative expression expected")
+		}
+		return nt
+	}
+	return c.rhs(e, c.lhsType(lhs))
 }
 
 func (c *fctx) lhsType(e ast.Expr) types.Type {
@@ -334,18 +381,26 @@ func (c *fctx) isBuiltinOrBinary(call *ast.CallExpr) bool {
 func (c *fctx) window(dst ast.Expr) (base ast.Expr, lo, hi string) {
 	if se, ok := dst.(*ast.SliceExpr); ok && !se.Slice3 {
 		b := c.expr(se.X)
-		lo = "(0 : Int)"
-		hi = "(Go.len " + b + ")"
+		lo = "0"
+		hi = b + ".length"
 		if se.Low != nil {
-			lo = c.toInt(se.Low)
+			nt, ok := c.natTerm(se.Low)
+			if !ok {
+				c.fail(dst, "window bound that may be negative")
+			}
+			lo = nt
 		}
 		if se.High != nil {
-			hi = c.toInt(se.High)
+			nt, ok := c.natTerm(se.High)
+			if !ok {
+				c.fail(dst, "window bound that may be negative")
+			}
+			hi = nt
 		}
 		return se.X, lo, hi
 	}
 	b := c.expr(dst)
-	return dst, "(0 : Int)", "(Go.len " + b + ")"
+	return dst, "0", b + ".length"
 }
 
 func (c *fctx) callStmt(call *ast.CallExpr) {
